@@ -1,6 +1,390 @@
-//! C01, master role (filled in with the master simulator)
+//! C01, master role: hostile bytes / fragments injected into a live master session in
+//! every protocol state, then liveness probes in virtual time while the peer keeps chattering.
+
+use crate::verif::checks::c01::hostile_fragment;
+use crate::verif::checks::common::*;
+use crate::verif::out::{self, J};
+use crate::verif::refcodec::app as ra;
+use crate::verif::refcodec::link as rl;
+use crate::verif::refcodec::transport as rt;
+use crate::verif::rng::Rng;
+use crate::verif::sim::master::*;
+use crate::verif::sim::*;
+use crate::verif::util::{hex, norm_location, take_panics};
 use crate::verif::ShardArgs;
 
-pub fn run(_a: &ShardArgs, _only: Option<u64>) -> Result<(), String> {
+const P: &str = "C01";
+const OUT: u16 = 1024;
+pub const MASTER_SCENARIO_BASE: u64 = 1_000_000;
+
+fn replay_j(a: &ShardArgs, idx: u64) -> J {
+    J::obj(vec![("check", J::s("c01")), ("seed", J::U(a.seed)), ("shard", J::U(a.shard)), ("nshards", J::U(a.nshards)), ("scenario", J::U(MASTER_SCENARIO_BASE + idx))])
+}
+
+fn panics(a: &ShardArgs, idx: u64, hist: &[String]) -> bool {
+    let ps = take_panics();
+    let mut any = false;
+    for p in ps {
+        if p.message.starts_with("verif: spin") {
+            out::violation(P, "C01.spin", "master", J::obj(vec![("why", J::s(p.message.clone())), ("history", J::arr(hist.iter().rev().take(16).rev().cloned()))]), replay_j(a, idx));
+        } else {
+            out::violation(P, "C01.panic", &norm_location(&p.location), J::obj(vec![("message", J::s(p.message.clone())), ("location", J::s(p.location.clone())), ("context", J::s("master session")), ("history", J::arr(hist.iter().rev().take(16).rev().cloned()))]), replay_j(a, idx));
+        }
+        any = true;
+    }
+    any
+}
+
+/// a response-shaped hostile fragment; `seq` is the sequence number of the request that is outstanding (if any)
+fn hostile_response(r: &mut Rng, max: usize, seq: Option<u8>) -> Vec<u8> {
+    let mut f = hostile_fragment(r, max);
+    for _ in 0..6 {
+        if f.len() >= 2 && (f[1] == ra::F_RESPONSE || f[1] == ra::F_UNSOL_RESPONSE) {
+            break;
+        }
+        f = hostile_fragment(r, max);
+    }
+    if let Some(s) = seq {
+        if r.chance(2, 3) && !f.is_empty() {
+            f[0] = (f[0] & 0xF0) | (s & 15);
+        }
+    }
+    f
+}
+
+async fn scenario(a: &ShardArgs, idx: u64) {
+    let mut r = a.rng(&format!("c01/master/{idx}"));
+    let mut mc = MasterCfg::default();
+    mc.tx = *r.pick(&[249usize, 292, 2048]);
+    mc.rx = *r.pick(&[2048usize, 4096]);
+    mc.decode = r.usize_below(108);
+    mc.discard = r.bool();
+    let t_r = *r.pick(&[100u64, 1000]);
+    let full = r.bool();
+    let mut ac = if full { AssocCfg::default_like(OUT) } else { AssocCfg::quiet(OUT) };
+    ac.response_timeout_ms = t_r;
+    ac.retry_min_ms = 200;
+    ac.retry_max_ms = 400;
+    ac.keep_alive_ms = if r.chance(1, 3) { Some(700) } else { None };
+    if full {
+        ac.auto_time_sync = *r.pick(&[None, Some(0u8), Some(1), Some(2)]);
+        ac.event_scan = [r.bool(), r.bool(), r.bool()];
+    }
+    let mut sim = MasterSim::start(mc.clone(), &[ac.clone()]).await;
+    let mut hist: Vec<String> = vec![format!("{mc:?} {ac:?}")];
+    let viol = |rule: &str, sig: &str, why: String, hist: &Vec<String>| {
+        out::violation(P, &format!("C01.{rule}"), sig, J::obj(vec![("why", J::s(why)), ("history", J::arr(hist.iter().rev().take(20).rev().cloned()))]), replay_j(a, idx));
+    };
+    // ---- answer faithfully for a while to reach a state
+    let mut last_seq: Option<u8> = None;
+    let serve = |sim: &mut MasterSim, last_seq: &mut Option<u8>, answer: bool, multi: bool| -> usize {
+        let mut n = 0;
+        for x in sim.collect() {
+            match x {
+                Rx::Fragment { bytes, .. } if !(bytes.len() == 2 && bytes[1] == ra::F_CONFIRM) => {
+                    n += 1;
+                    let seq = bytes[0] & 15;
+                    *last_seq = Some(seq);
+                    if answer {
+                        let rsp = match bytes[1] {
+                            ra::F_READ if multi => ra::B::response(ra::FIR | ra::CON | seq, false, 0, 0).range8(30, 1, 0, 0, &[1, 7, 0, 0, 0]).done(),
+                            ra::F_READ => ra::B::response(ra::FIR | ra::FIN | seq, false, 0, 0).range8(30, 1, 0, 0, &[1, 7, 0, 0, 0]).done(),
+                            ra::F_DELAY_MEASURE => ra::B::response(ra::FIR | ra::FIN | seq, false, 0, 0).count8(52, 2, 1, &[0, 0]).done(),
+                            ra::F_SELECT | ra::F_OPERATE | ra::F_DIRECT_OPERATE => ra::B::response(ra::FIR | ra::FIN | seq, false, 0, 0).raw(&bytes[2..]).done(),
+                            _ => ra::B::response(ra::FIR | ra::FIN | seq, false, 0, 0).done(),
+                        };
+                        sim.send_from(OUT, &rsp);
+                    }
+                }
+                Rx::Link { frame, .. } if frame.ctrl & 0x4F == rl::F_REQUEST_LINK_STATUS => {
+                    n += 1;
+                    if answer {
+                        sim.send_link(OUT, rl::F_LINK_STATUS);
+                    }
+                }
+                _ => {}
+            }
+        }
+        n
+    };
+    let state = match r.below(6) {
+        0 => {
+            // start-up completed, idle
+            for _ in 0..12 {
+                if serve(&mut sim, &mut last_seq, true, false) == 0 {
+                    break;
+                }
+                settle().await;
+            }
+            last_seq = None;
+            "idle"
+        }
+        1 => {
+            // first automatic / keep-alive request outstanding
+            let n = r.below(3);
+            for _ in 0..n {
+                serve(&mut sim, &mut last_seq, true, false);
+                settle().await;
+            }
+            serve(&mut sim, &mut last_seq, false, false);
+            "auto-task-awaiting-reply"
+        }
+        2 => {
+            for _ in 0..12 {
+                if serve(&mut sim, &mut last_seq, true, false) == 0 {
+                    break;
+                }
+                settle().await;
+            }
+            sim.submit(0, UserReq::ReadClasses([true, true, true, true]));
+            settle().await;
+            serve(&mut sim, &mut last_seq, false, false);
+            "user-read-awaiting-reply"
+        }
+        3 => {
+            for _ in 0..12 {
+                if serve(&mut sim, &mut last_seq, true, false) == 0 {
+                    break;
+                }
+                settle().await;
+            }
+            sim.submit(0, UserReq::ReadClasses([true, true, true, true]));
+            settle().await;
+            // first fragment of a series answered (FIR, not FIN, CON): the master is in the middle of a multi-fragment response
+            serve(&mut sim, &mut last_seq, true, true);
+            settle().await;
+            let _ = sim.collect();
+            last_seq = last_seq.map(|s| (s + 1) & 15);
+            "mid-multi-fragment-response"
+        }
+        4 => {
+            for _ in 0..12 {
+                if serve(&mut sim, &mut last_seq, true, false) == 0 {
+                    break;
+                }
+                settle().await;
+            }
+            let objs = vec![(r.below(5) as u8, r.below(20) as u16, r.bool(), r.below(1000) as u32)];
+            sim.submit(0, UserReq::Command(true, objs));
+            settle().await;
+            if r.bool() {
+                // SELECT answered: OPERATE outstanding
+                serve(&mut sim, &mut last_seq, true, false);
+                settle().await;
+            }
+            serve(&mut sim, &mut last_seq, false, false);
+            "command-awaiting-reply"
+        }
+        _ => {
+            for _ in 0..12 {
+                if serve(&mut sim, &mut last_seq, true, false) == 0 {
+                    break;
+                }
+                settle().await;
+            }
+            sim.submit(0, r.pick(&[UserReq::TimeSync(0), UserReq::TimeSync(1), UserReq::LinkStatus, UserReq::ColdRestart, UserReq::WriteDeadBands(vec![(1, 2)])]).clone());
+            settle().await;
+            serve(&mut sim, &mut last_seq, false, false);
+            "non-read-task-awaiting-reply"
+        }
+    };
+    hist.push(format!("state {state} (outstanding seq {last_seq:?})"));
+    let n_items = r.range(1, 6);
+    for _ in 0..n_items {
+        if sim.task_finished() {
+            break;
+        }
+        let kind = r.below(10);
+        let label;
+        let mut framing_error = false;
+        if kind < 3 {
+            let mut bytes = vec![];
+            match r.below(4) {
+                0 => {
+                    let n = r.range(1, 600) as usize;
+                    bytes = r.bytes(n);
+                }
+                1 => {
+                    let body = hostile_response(&mut r, 200, last_seq);
+                    let mut seg = vec![0xC0 | (r.u8() & 0x3F)];
+                    seg.extend(body);
+                    let mut fr = rl::Frame::new(0x44, mc.master_addr, OUT, &seg[..seg.len().min(250)]).encode();
+                    let k = r.usize_below(fr.len());
+                    fr[k] ^= 1 << r.below(8);
+                    bytes = fr;
+                }
+                2 => {
+                    for _ in 0..r.range(1, 6) {
+                        let len = *r.pick(&[0usize, 1, 5, 250]);
+                        bytes.extend(rl::Frame::new(r.u8(), *r.pick(&[mc.master_addr, 0xFFFF, 0xFFFC, 3]), *r.pick(&[OUT, 0xFFFF, 0xFFFC, 7]), &r.bytes(len)).encode());
+                    }
+                }
+                _ => {
+                    let nseg = r.range(1, 12);
+                    for _ in 0..nseg {
+                        let mut seg = vec![rt::header(r.chance(1, 3), r.chance(1, 3), r.u8())];
+                        let n = *r.pick(&[0usize, 1, 249]);
+                        seg.extend(r.bytes(n));
+                        bytes.extend(rl::Frame::new(0x44, mc.master_addr, OUT, &seg).encode());
+                    }
+                }
+            }
+            framing_error = rl::scan_close(&bytes).error.is_some();
+            let (cname, chunks) = chunking(&mut r, &bytes);
+            label = format!("bytes/{cname}/{}B", bytes.len());
+            for c in &chunks {
+                sim.pipe.push(c);
+            }
+        } else {
+            let max = if r.chance(1, 4) { mc.rx } else { *r.pick(&[30usize, 249, 600]) };
+            let frag = hostile_response(&mut r, max, last_seq);
+            let src = if r.chance(1, 8) { 7 } else { OUT };
+            let dest = if r.chance(1, 10) { 0xFFFD + r.below(3) as u16 } else { mc.master_addr };
+            label = format!("fragment/f{}/{}B {}", frag.get(1).copied().unwrap_or(0), frag.len(), hex(&frag[..frag.len().min(24)]));
+            let mut tseq = sim.tseq;
+            let bytes = encode_fragment(false, dest, src, &frag, &mut tseq);
+            sim.tseq = tseq;
+            let (_, chunks) = chunking(&mut r, &bytes);
+            for c in &chunks {
+                sim.pipe.push(c);
+            }
+        }
+        hist.push(format!("t={} [{state}] {label}", sim.now()));
+        out::eval(1);
+        let ex0 = settle_exhausted();
+        settle().await;
+        if settle_exhausted() > ex0 {
+            viol("spin", state, "master did not become quiescent".into(), &hist);
+            break;
+        }
+        sim.advance(r.range(0, 60)).await;
+        // keep the conversation going a little: answer what the master asks now (it may be a retry)
+        if r.bool() {
+            serve(&mut sim, &mut last_seq, r.bool(), false);
+            settle().await;
+        } else {
+            let _ = sim.collect();
+        }
+        out::distinct(&format!("master/{state}/{}/{}", label.split('/').take(2).collect::<Vec<_>>().join("/"), if mc.discard { "discard" } else { "close" }));
+        if panics(a, idx, &hist) {
+            break;
+        }
+        if sim.pipe.dropped() {
+            if mc.discard && !sim.task_finished() {
+                viol("session_ended_in_discard_mode", state, "the master session ended although the link error mode is Discard".into(), &hist);
+            }
+            out::count(if framing_error { "master_close_mode_session_ended_on_framing_error" } else { "master_session_ended" }, 1);
+            sim.connect().await;
+            let _ = sim.collect();
+            last_seq = None;
+            hist.push("(session had ended: new connection)".into());
+        } else if framing_error && !mc.discard {
+            viol("close_mode_no_error", state, "framing error in Close mode did not end the master session".into(), &hist);
+        }
+    }
+    if sim.task_finished() {
+        panics(a, idx, &hist);
+        viol("task_ended", state, "the master task ended".into(), &hist);
+        return;
+    }
+    // ---------------- liveness probe: a user READ must reach the wire and complete, although the peer never answers
+    // anything else and keeps sending ignorable traffic more often than the response timeout
+    let mut flush = vec![0u8; 0];
+    for _ in 0..2 {
+        flush.extend(rl::Frame::new(0x44, 2, 3, &[0x55; 250]).encode());
+    }
+    sim.pipe.push(&flush);
+    settle().await;
+    if sim.pipe.dropped() {
+        sim.connect().await;
+    }
+    let _ = sim.collect();
+    let probe_id = sim.submit(0, UserReq::ReadRange16(30, 2, 7777, 7777));
+    settle().await;
+    let chatter_kind = r.below(4);
+    let mut unsol_seq = r.below(16) as u8;
+    // every outstanding or queued task ends after at most one response timeout each; start-up has at most 6 of them, retries are delayed
+    let bound = 14 * t_r + 6 * ac.retry_max_ms + 3000;
+    let t0 = sim.now();
+    let mut probe_sent_at: Option<u64> = None;
+    let mut done = false;
+    while sim.now() - t0 < bound {
+        for x in sim.collect() {
+            if let Rx::Fragment { bytes, t_ms, .. } = x {
+                if !(bytes.len() == 2 && bytes[1] == ra::F_CONFIRM) {
+                    last_seq = Some(bytes[0] & 15);
+                }
+                if bytes.len() >= 9 && bytes[1] == ra::F_READ && bytes[2] == 30 && bytes[3] == 2 && bytes[5] == 0x61 && bytes[6] == 0x1E {
+                    probe_sent_at = Some(t_ms);
+                    sim.send_from(OUT, &ra::B::response(ra::FIR | ra::FIN | (bytes[0] & 15), false, 0, 0).done());
+                    settle().await;
+                }
+            }
+        }
+        if let Some((_, _, _, text)) = sim.result_of(probe_id) {
+            hist.push(format!("probe result {text}"));
+            done = true;
+            if probe_sent_at.is_some() && !text.starts_with("Ok") {
+                viol("probe_failed", state, format!("the probe READ was answered but read() returned {text}"), &hist);
+            }
+            break;
+        }
+        // ignorable chatter, more often than the response timeout
+        match chatter_kind {
+            0 => {}
+            1 => {
+                unsol_seq = (unsol_seq + 1) & 15;
+                sim.send_from(OUT, &ra::B::response(ra::FIR | ra::FIN | ra::UNS | unsol_seq, true, 0, 0).done());
+            }
+            2 => sim.send_link(OUT, rl::F_LINK_STATUS),
+            _ => {
+                // a solicited response that never matches the outstanding sequence number
+                let s = last_seq.map(|s| (s + 8) & 15).unwrap_or(3);
+                sim.send_from(OUT, &ra::B::response(ra::FIR | ra::FIN | s, false, 0, 0).done());
+            }
+        }
+        settle().await;
+        if sim.pipe.dropped() {
+            sim.connect().await;
+        }
+        sim.advance((t_r / 3).max(10)).await;
+        // remember the sequence number of whatever is outstanding so that chatter kind 3 never matches it
+        // (collect happens at the top of the loop)
+    }
+    if !done {
+        if probe_sent_at.is_none() {
+            viol("wedged_master", &format!("{state}/chatter{chatter_kind}"), format!("a user READ submitted after the hostile input was not sent within {bound} virtual ms while the peer kept sending ignorable traffic"), &hist);
+        } else {
+            viol("probe_unresolved", state, "the probe READ was sent and answered but read() never returned".into(), &hist);
+        }
+    } else {
+        out::count("master_probe_read_ok", 1);
+        out::count(&format!("master_probe_ok_chatter{chatter_kind}"), 1);
+    }
+    panics(a, idx, &hist);
+    if a.replay.is_some() {
+        for l in crate::verif::trace::tail(80) {
+            eprintln!("TRACE {l}");
+        }
+        for h in &hist {
+            eprintln!("HIST {h}");
+        }
+    }
+}
+
+pub fn run(a: &ShardArgs, only: Option<u64>) -> Result<(), String> {
+    let n = a.n(6000);
+    for idx in 0..n {
+        if idx % a.nshards != a.shard {
+            continue;
+        }
+        if let Some(o) = only {
+            if o != MASTER_SCENARIO_BASE + idx {
+                continue;
+            }
+        }
+        out::progress(&format!("master scenario {idx}"));
+        run_scenario(scenario(a, idx));
+    }
     Ok(())
 }
